@@ -357,7 +357,7 @@ def mk_ob(prefix, fn, first, shape_id, opts, tier, timeout=None, extra="", pl=No
             shape_id, SHAPES[shape_id], first, opts, PROSE_A, pl or (2 if tier == "quick" else 3),
             dr or (2 if tier == "quick" else 4), dr or (2 if tier == "quick" else 4), str_alpha or "'ab '", fixed),
         kind=kind,
-        timeout=timeout or (240 if tier == "quick" else 900),
+        timeout=timeout or (330 if tier == "quick" else 900),
         path_timeout=100,
         funcs=list(funcs),
         skip_kf=skip,
